@@ -284,6 +284,7 @@ def hard_failures(out):
         frames = [ln.strip() for ln in text.splitlines() if re.match(r"^[\w./*()\[\]{}-]+\(.*\)$", ln.strip())]
         frames = [f for f in frames if not f.startswith(("runtime.", "panic(", "testing."))]
         helper = lambda f: "/originium/types." in f or "/originium/utils." in f
+        frames = [f for f in frames if "dbx.quiet.Panicf" not in f]
         harness = lambda f: f.startswith("main.") or "verif/harness" in f
         if frames and (harness(frames[0]) or (helper(frames[0]) and len(frames) > 1 and harness(frames[1]))):
             raise Machinery("the harness itself panicked:\n" + text[:1500])
